@@ -25,6 +25,26 @@ def close(a, b):
     return abs(a - b) <= 1e-9 * (1 + abs(a))
 
 
+def scatter_rows(r, G, dists, cnts, n_alleles):
+    """per sample: about half of the zero-count rows get a genuine-looking distribution (a legal read observed 0 times)
+    instead of NaN, then the read rows are permuted, so zero-count rows sit anywhere and not only at the tail.
+    Returns (#samples with a zero-count row before a positive-count row, #samples without any read)."""
+    S, R = cnts.shape
+    interleaved = empty = 0
+    for s in range(S):
+        for k in range(R):
+            if cnts[s, k] == 0 and r.random() < 0.5:
+                dists[s, k] = G.gen_reads(r, n_alleles, 1, haps=None, gap=0.0, style="encoded")[0][0]
+        perm = list(range(R)); r.shuffle(perm)
+        dists[s] = dists[s][perm].copy(); cnts[s] = cnts[s][perm].copy()
+        pos = [k for k in range(R) if cnts[s, k] > 0]
+        if not pos:
+            empty += 1
+        elif any(cnts[s, k] == 0 for k in range(pos[-1])):
+            interleaved += 1
+    return interleaved, empty
+
+
 def main():
     seed = int(sys.argv[1]); scale = float(sys.argv[2])
     sys.path.insert(0, __import__("os").environ.get("MCHAP_REPO", "/repo"))
@@ -85,6 +105,8 @@ def main():
         truth = G.gen_genotype(r, ploidy, n_alleles, dup=0.3)
         reads, counts = G.gen_reads(r, n_alleles, r.randint(3, 8), haps=truth, gap=0.2, style="encoded")
         temps = np.array([0.3, 1.0]) if r.random() < 0.7 else np.array([1.0])
+        if it % 3 == 2:
+            counts = None        # read_counts=None: every row is one observation
         traces = {}
         for mode in ("none", "tiny", "large"):
             if mode == "tiny":
@@ -108,7 +130,7 @@ def main():
                     if not close(float(lt[t, s]), fresh):
                         out["bad"].append({"where": f"assemble/trace-llk cache={mode}", "chain": t, "step": s, "genotype": gt[t, s].tolist(),
                                            "carried": float(lt[t, s]), "fresh": fresh})
-            out["assemble"].append({"mode": mode, "ploidy": ploidy, "n_base": nb, "temps": temps.tolist(),
+            out["assemble"].append({"mode": mode, "ploidy": ploidy, "n_base": nb, "temps": temps.tolist(), "read_counts_none": counts is None,
                                     "served": stats["served"] - before["served"], "hits": stats["hits"] - before["hits"],
                                     "flushes": stats["flushes"] - before["flushes"], "growths": stats["growths"] - before["growths"]})
         for mode in ("tiny", "large"):
@@ -135,6 +157,8 @@ def main():
         harr = np.array(haps, dtype=np.int8)
         ploidy = r.choice([2, 4])
         reads, counts = G.gen_reads(r, n_alleles, r.randint(2, 6), haps=[r.choice(haps) for _ in range(ploidy)], style="encoded")
+        if it % 4 == 3:
+            counts = None
         res = {}
         for st in (0, 1):
             for cache in (False, True):
@@ -149,7 +173,7 @@ def main():
                                            "carried": float(lt[s]), "fresh": fresh})
             if res[(st, False)] != res[(st, True)]:
                 out["bad"].append({"where": f"calling/trajectory differs with cache on/off (step_type={st})"})
-            out["calling"].append({"step_type": st, "ploidy": ploidy, "n_haps": len(haps)})
+            out["calling"].append({"step_type": st, "ploidy": ploidy, "n_haps": len(haps), "read_counts_none": counts is None})
 
     # ------------------------------------------------------------------ pedigree
     from mchap.pedigree import mcmc as pmcmc
@@ -166,7 +190,10 @@ def main():
         fresh = float(log_likelihood(own_r[idx], haplotypes[np.sort(genotype_alleles)], read_counts=own_c[idx]))
         ctx["served"] += 1
         if not close(float(llk), fresh):
-            ctx["bad"].append({"sample": int(sample), "alleles": [int(x) for x in genotype_alleles], "served": float(llk), "fresh": fresh})
+            pos = np.where(own_c > 0)[0]
+            ctx["bad"].append({"sample": int(sample), "alleles": [int(x) for x in genotype_alleles], "served": float(llk), "fresh": fresh,
+                               "sample_read_counts": [int(x) for x in own_c],
+                               "zero_count_row_before_a_positive_one": bool(len(pos) and (own_c[:pos[-1]] == 0).any())})
         return llk
 
     pmcmc.log_likelihood_alleles_cached = mon_ped
@@ -186,23 +213,28 @@ def main():
         n = len(haps)
         ploidy = 2
         # trio: parents 0 and 1 with different numbers of distinct reads, child 2
-        n_reads = [r.randint(1, 3), r.randint(4, 7), r.randint(2, 5)]
+        # (a sample may have no read at all; the read rows of every sample are permuted so that zero-count rows precede
+        # positive-count rows: both are legal inputs of mcmc_sampler / PedigreeCallingMCMC.fit)
+        n_reads = [r.randint(0, 3), r.randint(4, 7), r.choice([0, 2, 3, 4, 5])]
         if r.random() < 0.5:
             n_reads[0], n_reads[1] = n_reads[1], n_reads[0]
-        R = max(n_reads)
+        R = max(n_reads) + r.randint(0, 2)
         dists = np.full((3, R, nb, 2), np.nan); cnts = np.zeros((3, R), dtype=np.int64)
         geno = np.array([[r.randrange(n) for _ in range(ploidy)] for _ in range(3)], dtype=np.int64)
         for s in range(3):
             rd, ct = G.gen_reads(r, n_alleles, n_reads[s], haps=[haps[a] for a in geno[s]], gap=0.0, style="encoded")
             dists[s, :n_reads[s]] = rd; cnts[s, :n_reads[s]] = ct
+        layout = scatter_rows(r, G, dists, cnts, n_alleles)
         parents = np.array([[-1, -1], [-1, -1], [0, 1]], dtype=np.int64)
         tau = np.array([[1, 1]] * 3, dtype=np.int64); lam = np.zeros((3, 2)); err = np.full((3, 2), 0.01)
         logf = np.log(np.full(n, 1.0 / n))
         ctx.update({"dists": dists, "counts": cnts, "served": 0, "bad": []})
-        np.random.seed(5 + it)
-        pmcmc.mcmc_sampler(geno, np.full(3, ploidy, dtype=np.int64), parents, tau, lam, err, dists, cnts, harr, logf,
-                           n_steps=int(8 * max(1, scale)), annealing=0, step_type=r.choice([0, 1]), swap_parental_alleles=True)
-        out["pedigree"].append({"n_reads": n_reads, "served": ctx["served"], "incoherent": len(ctx["bad"]), "first": ctx["bad"][:2]})
+        for st in (0, 1):      # Gibbs and Metropolis-Hastings allele updates
+            np.random.seed(5 + it + 1000 * st)
+            pmcmc.mcmc_sampler(geno, np.full(3, ploidy, dtype=np.int64), parents, tau, lam, err, dists, cnts, harr, logf,
+                               n_steps=int(6 * max(1, scale)), annealing=0, step_type=st, swap_parental_alleles=True)
+        out["pedigree"].append({"n_reads": n_reads, "served": ctx["served"], "incoherent": len(ctx["bad"]), "first": ctx["bad"][:2],
+                                "rows_interleaved": layout[0], "samples_without_reads": layout[1]})
         for b in ctx["bad"][:3]:
             out["bad"].append({"where": "pedigree/served-value", "n_reads": n_reads, "p_more_reads_than_q": n_reads[0] > n_reads[1], **b})
 
@@ -219,23 +251,64 @@ def main():
         pl5 = tau5.sum(axis=1)
         par5 = np.array([[-1 if q is None else pos[q] for q in base_par[nm]] for nm in names], dtype=np.int64)
         mp = int(pl5.max())
-        n_reads5 = [r.randint(1, 6) for _ in range(N)]
-        R5 = max(n_reads5)
+        n_reads5 = [r.choice([0, 1, 2, 3, 4, 5, 6]) for _ in range(N)]
+        R5 = max(1, max(n_reads5) + r.randint(0, 2))
         dists5 = np.full((N, R5, nb, 2), np.nan); cnts5 = np.zeros((N, R5), dtype=np.int64)
         geno5 = np.full((N, mp), -2, dtype=np.int64)
         for s_ in range(N):
             geno5[s_, :pl5[s_]] = [r.randrange(n) for _ in range(pl5[s_])]
             rd, ct = G.gen_reads(r, n_alleles, n_reads5[s_], haps=[haps[a] for a in geno5[s_, :pl5[s_]]], gap=0.0, style="encoded")
             dists5[s_, :n_reads5[s_]] = rd; cnts5[s_, :n_reads5[s_]] = ct
+        layout5 = scatter_rows(r, G, dists5, cnts5, n_alleles)
         ctx.update({"dists": dists5, "counts": cnts5, "served": 0, "bad": []})
-        np.random.seed(11 + it)
-        pmcmc.mcmc_sampler(geno5, pl5, par5, tau5, np.zeros((N, 2)), np.full((N, 2), 0.05), dists5, cnts5, harr, logf,
-                           n_steps=int(10 * max(1, scale)), annealing=0, step_type=r.choice([0, 1]), swap_parental_alleles=True)
+        for st in (0, 1):
+            np.random.seed(11 + it + 1000 * st)
+            pmcmc.mcmc_sampler(geno5, pl5, par5, tau5, np.zeros((N, 2)), np.full((N, 2), 0.05), dists5, cnts5, harr, logf,
+                               n_steps=int(7 * max(1, scale)), annealing=0, step_type=st, swap_parental_alleles=True)
         out["pedigree"].append({"order": names, "ploidies": [int(x) for x in pl5], "n_reads": n_reads5, "served": ctx["served"],
-                                "incoherent": len(ctx["bad"]), "first": ctx["bad"][:2]})
+                                "incoherent": len(ctx["bad"]), "first": ctx["bad"][:2],
+                                "rows_interleaved": layout5[0], "samples_without_reads": layout5[1]})
         for b in ctx["bad"][:3]:
             out["bad"].append({"where": "pedigree/served-value (mixed ploidy)", "order": names, "ploidies": [int(x) for x in pl5],
                                "n_reads": n_reads5, **b})
+        # caller-supplied cache audited after swap steps of EVERY parental pair of the mixed-ploidy family
+        # (the pairs have different ploidies: T x D and D x E)
+        children5 = pmcmc.sample_children_matrix(par5)
+        pairs5, blankets5 = pmcmc.parental_pair_markov_blankets(par5, children5)
+        z5 = lambda: np.zeros(mp, dtype=np.int64)
+        for j5 in range(len(pairs5)):
+            p5, q5 = int(pairs5[j5, 0]), int(pairs5[j5, 1])
+            cache5 = {(-1, -1): np.nan}
+            g5 = geno5.copy()
+            decided = 0
+            for attempt in range(8):
+                if attempt % 2 == 1:   # make sure the pair does not hold the same haplotypes only
+                    g5[p5, :pl5[p5]] = [r.randrange(n) for _ in range(pl5[p5])]
+                    g5[q5, :pl5[q5]] = [r.randrange(n) for _ in range(pl5[q5])]
+                np.random.seed(100 * it + 10 * j5 + attempt)
+                ctx.update({"served": 0, "bad": []})
+                pa, _acc = pmcmc.pair_allele_swap_step(
+                    p=p5, q=q5, markov_blanket=blankets5[j5], sample_genotypes=g5, sample_ploidy=pl5, sample_parents=par5, gamete_tau=tau5,
+                    gamete_lambda=np.zeros((N, 2)), gamete_error=np.full((N, 2), 0.05), sample_read_dists=dists5, sample_read_counts=cnts5,
+                    haplotypes=harr, log_frequencies=logf, llk_cache=cache5, dosage=z5(), dosage_p=z5(), dosage_q=z5(), gamete_p=z5(),
+                    gamete_q=z5(), constraint_p=z5(), constraint_q=z5(), dosage_log_frequencies=np.zeros(mp))
+                decided += 0 if (isinstance(pa, float) and math.isnan(pa)) else 1
+                for b in ctx["bad"][:2]:
+                    out["bad"].append({"where": "pedigree/served-value (mixed ploidy)", "order": names, "ploidies": [int(x) for x in pl5],
+                                       "n_reads": n_reads5, "in": "pair_allele_swap_step", "pair": [p5, q5], **b})
+            entries5 = [(k, v) for k, v in cache5.items() if isinstance(k, tuple) and len(k) == 2 and k[0] >= 0]
+            n_bad5 = 0
+            for (s_, gi), v in entries5:
+                al = index_as_genotype_alleles(gi, int(pl5[s_]))
+                idx = cnts5[s_] > 0
+                fresh = float(log_likelihood(dists5[s_][idx], harr[al], read_counts=cnts5[s_][idx]))
+                if not close(float(v), fresh):
+                    n_bad5 += 1
+                    out["bad"].append({"where": "pedigree/swap-cache-entry (mixed ploidy)", "sample": int(s_), "alleles": al.tolist(),
+                                       "cached": float(v), "fresh": fresh, "ploidies": [int(x) for x in pl5], "n_reads": n_reads5,
+                                       "pair": [p5, q5], "order": names})
+            out["swap"].append({"family": "mixed", "pair": [p5, q5], "pair_ploidies": [int(pl5[p5]), int(pl5[q5])], "decided": decided,
+                                "entries": len(entries5), "incoherent": n_bad5, "seed_it": it})
         ctx.update({"dists": dists, "counts": cnts, "served": 0, "bad": []})
 
         # caller-supplied cache after one swap step
